@@ -22,10 +22,15 @@ import copy as _copy
 from hypothesis import strategies as st
 from sqlalchemy import (
     BigInteger,
+    Boolean,
     Column,
+    DateTime,
+    Enum,
+    Float,
     ForeignKey,
     Integer,
     MetaData,
+    Numeric,
     String,
     Table,
     Text,
@@ -46,6 +51,7 @@ from sqlalchemy import (
     or_,
     select,
     true,
+    type_coerce,
     union,
     union_all,
     update,
@@ -316,6 +322,69 @@ class NoCacheInt(TypeDecorator):
         return value
 
 
+class DecNum(TypeDecorator):
+    """TypeDecorator over Numeric whose constructor arguments are its cache key (cache_ok contract)"""
+
+    impl = Numeric
+    cache_ok = True
+
+    def __init__(self, precision=None, scale=None):
+        self.precision = precision
+        self.scale = scale
+        super().__init__(precision, scale)
+
+
+def _nv(*a):
+    return Numeric(*a).with_variant(String(7), "mysql")
+
+
+# type-argument families: variants 2k / 2k+1 form a pair that the "type_arg" toggle switches between; pair (0, 1) is
+# "argument absent" vs "falsy but meaningful argument"
+NUM_FAMS = [
+    [Numeric(10), Numeric(10, 0), Numeric(10, 2), Numeric(10, 4)],
+    [Float(asdecimal=True), Float(asdecimal=True, decimal_return_scale=0), Float(asdecimal=True, decimal_return_scale=2), Float(asdecimal=True, decimal_return_scale=5)],
+    [DecNum(10), DecNum(10, 0), DecNum(10, 2), DecNum(10, 4)],
+    [_nv(10), _nv(10, 0), _nv(10, 2), _nv(10, 4)],
+]
+OTHER_FAMS = [
+    ("str", [String(), String(5), String(10), String(20)]),
+    ("enum", [Enum("a", "b", name="e1"), Enum("a", "bb", name="e1"), Enum("a", "b", "ccc", name="e1"), Enum("a", "dddd", name="e1")]),
+    ("bool", [Boolean(), Boolean(create_constraint=True), Boolean(create_constraint=True, name="ck1"), Boolean(create_constraint=True, name="ck2")]),
+    ("dt", [DateTime(), DateTime(timezone=True), DateTime(timezone=False), DateTime(timezone=True)]),
+]
+# pairs that reproduce confirmed findings (equal cache keys, different SQL / result processing); pinned replays only
+PINNED_FAMS = {
+    "V": ("num", [Numeric(10, 2).with_variant(Numeric(10, 0), "sqlite"), Numeric(10, 2).with_variant(Numeric(10, 4), "sqlite")]),
+    "E": ("enum", [Enum("a", "b", name="e1"), Enum("a", "c", name="e2")]),
+}
+N_FAMS = len(NUM_FAMS) + len(OTHER_FAMS)
+
+
+def _typed(n, env):
+    """["tc", mode, operand, fam, arg, pinned_fam|None]: cast (0) / type_coerce (1) / typed literal (2) to a drawn type
+    with a drawn constructor-argument variant"""
+    mode, e, fam, arg = n[1], n[2], n[3], n[4]
+    pf = n[5] if len(n) > 5 else None
+    if pf:
+        kind, variants = PINNED_FAMS[pf]
+    elif fam % N_FAMS < len(NUM_FAMS):
+        kind, variants = "num", NUM_FAMS[fam % N_FAMS]
+    else:
+        kind, variants = OTHER_FAMS[fam % N_FAMS - len(NUM_FAMS)]
+    typ = variants[arg % len(variants)]
+    if kind == "num":
+        if mode == 2 and e[0] == "v" and e[2] in ("i", "I"):
+            return literal(e[1] / 8.0 + 0.375, type_=typ)
+        operand = _col(bx(e, env)) / 8.0 + 0.375  # fractional values, so that the scale argument shows in the rows
+    elif kind == "enum":
+        operand = literal("a", type_=String)
+    elif kind == "dt":
+        operand = literal("2020-01-02 03:04:05.000000", type_=String)
+    else:
+        operand = _col(bx(e, env))
+    return type_coerce(operand, typ) if mode == 1 else cast(operand, typ)
+
+
 TYPES = {"i": Integer, "s": String, "I": BigInteger, "t": Text, "D1": DeltaInt(1), "D2": DeltaInt(2), "N": NoCacheInt()}
 _TYPE_CYCLE = {"i": "I", "I": "D1", "D1": "D2", "D2": "N", "N": "i", "s": "t", "t": "s"}
 CMP = {
@@ -370,6 +439,8 @@ def bx(n, env):
         return case(*whens, else_=bx(n[2], env))
     if h == "cast":
         return cast(_col(bx(n[1], env)), TYPES[n[2]])
+    if h == "tc":
+        return _typed(n, env)
     if h == "cmp":
         return CMP[n[1]](_col(bx(n[2], env)), bx(n[3], env))
     if h == "and":
@@ -446,6 +517,15 @@ _ilitx = st.one_of(
 )
 
 
+def typed_expr(num_only=False):
+    """a cast / type_coerce / typed literal whose type carries constructor arguments"""
+    fam = st.integers(0, len(NUM_FAMS) - 1) if num_only else st.integers(0, N_FAMS - 1)
+    return st.tuples(
+        st.just("tc"), st.sampled_from([0, 0, 1, 2]), st.one_of(_icol, _ilit), fam, st.sampled_from([0, 1, 0, 1, 2, 3]),
+        st.sampled_from([None] * 9 + ["V", "E"]),
+    ).map(list)
+
+
 def int_expr(depth):
     leaf = st.one_of(_icol, _icol, _ilitx)
     if depth <= 0:
@@ -489,6 +569,7 @@ def bool_expr(depth):
         st.tuples(st.just("in"), _icol, st.tuples(st.just("inl"), st.integers(0, 3), _base).map(list), st.booleans()).map(list),
         st.tuples(st.just("isn"), st.one_of(_icol, _scol), st.booleans()).map(list),
         st.tuples(st.just("btw"), _icol, _ilit, _ilit).map(list),
+        st.tuples(st.just("cmp"), _ineq, typed_expr(num_only=True), _ilit).map(list),
         st.tuples(st.just("like"), _scol, st.sampled_from(["like", "starts", "contains", "ilike"]), _slit).map(list),
     )
     if depth <= 0:
@@ -581,7 +662,7 @@ def select_desc(draw, depth=1, allow_wrap=True, orm=None):
         }
         d["distinct"] = 0
     else:
-        d["cols"] = draw(st.lists(st.tuples(any_expr(depth), st.one_of(st.none(), st.integers(0, 3))).map(list), min_size=1, max_size=4))
+        d["cols"] = draw(st.lists(st.tuples(st.one_of(any_expr(depth), typed_expr(), typed_expr(num_only=True)), st.one_of(st.none(), st.integers(0, 3))).map(list), min_size=1, max_size=4))
     if allow_wrap and not (orm and shape == "ent"):
         w = draw(st.sampled_from([None, None, "subq", "cte", "setop"]))
         if w in ("subq", "cte"):
@@ -647,9 +728,9 @@ def stmt_desc(depth=1):
 SEL_TOGGLES = [
     "distinct", "outer0", "full0", "label0", "limit", "offset", "for_update", "prefix", "col_order", "label_style",
     "lit_type", "cast_type", "literal_execute", "where_drop", "order_desc", "op_flip", "in_neg", "wrap_name", "setop_op",
-    "join_drop", "loader", "opt_drop", "total", "wlc_flag", "having_op", "agg_fn", "where_dup", "xopt", "nocache_type", "delta_type", "xjoin", "wlc_op",
+    "join_drop", "loader", "opt_drop", "total", "wlc_flag", "having_op", "agg_fn", "where_dup", "xopt", "nocache_type", "delta_type", "xjoin", "wlc_op", "type_arg", "type_mode",
 ]
-DML_TOGGLES = ["ret", "ret_more", "pcols_more", "many", "val_drop", "where_drop", "op_flip", "lit_type", "in_neg", "sync", "sval", "literal_execute", "nocache_type", "delta_type"]
+DML_TOGGLES = ["ret", "ret_more", "pcols_more", "many", "val_drop", "where_drop", "op_flip", "lit_type", "in_neg", "sync", "sval", "literal_execute", "nocache_type", "delta_type", "type_arg", "type_mode"]
 
 
 def toggles_for(desc):
@@ -734,6 +815,15 @@ def _toggle(d, name):
                 return True
             if n[0] == "ls":
                 n[:] = ["lt", n[1], "t"]
+                return True
+        _walk(d, f)
+    elif name in ("type_arg", "type_mode"):
+        def f(n):
+            if n[0] == "tc":
+                if name == "type_arg":
+                    n[4] = n[4] ^ 1  # the other member of the argument pair
+                else:
+                    n[1] = 1 if n[1] != 1 else 0  # cast / typed literal <-> type_coerce
                 return True
         _walk(d, f)
     elif name in ("nocache_type", "delta_type"):
